@@ -344,6 +344,10 @@ def rule_schema_namespace(ck, F, rule="R6"):
                     sw.append(switched_node(nf))
                 if kind == "read" and isinstance(nf, tuple) and nf[0] == "param" and nf in sw:
                     self_switching.add(fn_)
+            if fn_ not in self_switching and sw and not any(k_ == "read" for k_, _n, _e in events) and any(isinstance(x, tuple) and x[0] == "param" for x in sw):
+                # the node is handed on through a table of readers (no direct call to order against): the switch on the function's own
+                # node is all there is to see
+                self_switching.add(fn_)
         for caller, events in sorted(per_fn.items()):
             short = caller.rsplit("::", 1)[-1]
             switched = []
